@@ -25,29 +25,43 @@ ID = "C15"
 LEVEL = "proof"
 ENGINES = ["lean-model", "pyextract", "purediff"]
 LEVEL_TEXT = (
-    "Lean theorems for all handlers/causes (unbounded label maps and values, induction over the criteria list): "
-    "match = documented reading of docs/filters.rst for update handlers and for non-changing causes (full), and "
-    "for the other changing handlers under the exact guard 'the old state alone does not satisfy value=' "
-    "(match_eq_doc_partial; the two gaps are proved as *_witness theorems and are known findings C15-F1/F2); "
-    "matchesMetadata_iff, dedup_nodup/first_kept/ids_same, prematch_of_match, selected_iff, stealth are full. "
-    "The model's boolean skeletons are regenerated from the AST and re-proved equal on every run; real "
-    "match/prematch/get_handlers/_deduplicated/process_resource_event are compared with the model on the "
-    "criteria alphabet (thorough: the full product).")
-TIE = ("T (AST -> Lean for match/prematch/_matches_*/registry loops/finalizer decision, re-proved equal to the model) "
-       "+ D over the criteria alphabet (quick: sampled; thorough: full product) + D on real process_resource_event cycles; "
-       "_deduplicated's loop is tied by D only")
+    "Lean theorems for all handlers/causes (unbounded label maps, patterns, registries; induction over lists): "
+    "match = the documented reading of docs/filters.rst -- full for update handlers and for non-changing causes, under the "
+    "exact guard 'the old state alone does not satisfy value=' for the other changing handlers (match_eq_doc_partial; the gaps "
+    "are *_witness theorems = open findings C15-F1/F2, plus the private-token abuse); the resource selector "
+    "(Selector.check after notation parsing) = the documented reading of docs/resources.rst except the undocumented "
+    "events.k8s.io exclusion (selector_check_iff_partial + witness = C15-F4); matchesMetadata_iff, dedup_*, selected_* are full. "
+    "'Invoked' (not only 'selected'): invoked_sound / invoked_doc / unmatched_never_invoked compose C02's "
+    "invoked_selected_awake with C15's selection -- every invoked handler satisfies its declared criteria and no handler "
+    "whose criteria fail is ever invoked; the converse (a matching handler IS invoked, when, how often) is C02/C03's "
+    "(recorded progress, lifecycle). Stealth: stealth_exact says exactly what a cycle does to an object nothing matches "
+    "(re-sends a carried-in handler transformation, removes a leftover own finalizer), stealth_*_partial are the clause under "
+    "the two visible guards, both with witnesses; the conclusion ranges over the model's Effect enumeration of "
+    "process_resource_causes (sleep-and-touch needs a matched handler's delay and is not modelled). `when=` and callbacks' "
+    "kwargs are opaque booleans by nature. The model's boolean skeletons are regenerated from the AST and re-proved equal on "
+    "every run; real match/prematch/get_handlers/_deduplicated/Selector.check/process_resource_event are compared with the "
+    "model on the criteria alphabet (thorough: the full product).")
+TIE = ("T (AST -> Lean for match/prematch/_matches_*/registry loops/Selector.check/finalizer decision/carried-patch exit, "
+       "re-proved equal to the model) + D over the criteria alphabet (quick: sampled; thorough: full product), over the "
+       "documented selector notations x a resource pool, and on real process_resource_event cycles (incl. a carried "
+       "remaining_patch; invoked handlers observed by their `param`); _deduplicated's loop and Selector.__post_init__'s "
+       "notation parsing are tied by D only")
 THEOREMS = [("Kopf.Props.C15", "Kopf.C15." + n) for n in (
     "match_eq_doc_partial", "match_eq_doc_update", "match_eq_doc_nonchanging",
     "doc_gap_old_only_witness", "doc_gap_callback_token_witness", "doc_gap_token_literal_witness",
     "matchesMetadata_iff", "matchesLabels_iff", "dedup_nodup", "dedup_first_kept", "dedup_sublist", "dedup_ids_same",
     "prematch_of_match", "selected_iff", "selected_sound", "selected_once",
+    "selector_check_iff_partial", "selector_check_iff_named", "resource_criterion_doc", "selector_gap_events_k8s_witness",
     "stealth_exact", "stealth_total_partial", "stealth_partial", "stealth_carried_witness", "stealth_blocked_witness",
+)] + [("Kopf.Props.C15_Invoked", "Kopf.C15." + n) for n in (
+    "selected_sub_owned", "invoked_sound", "invoked_doc", "unmatched_never_invoked",
 )]
 TIE_THEOREMS = [("Kopf.Tie.C15", "Kopf.C15.Tie." + n) for n in (
     "match_eq", "prematch_eq", "resource_eq", "subresource_eq", "subresource_nonwebhook", "when_eq", "labels_eq",
     "annotations_eq", "metadata_step_eq", "field_values_eq", "values_eq", "change_eq", "old_side_eq", "new_side_eq",
     "sides_src_eq", "field_changes_eq", "iter_plain_eq", "requires_finalizer_eq", "dedup_key_eq", "blind_eq",
     "finalizer_decision_eq", "release_eq", "early_exit_eq",
+    "selector_parts_eq", "selector_version_eq", "selector_any_eq", "selector_fn_eq", "selector_check_eq",
 )]
 RULE = ("handler declaration = labels x annotations criterion in {none, 'x', 'y', PRESENT, ABSENT, callback(is 'x')} x "
         "[no field | field x value x old x new in the same six x field_needs_change] x when in {none, true-fn, false-fn}; "
@@ -55,15 +69,19 @@ RULE = ("handler declaration = labels x annotations criterion in {none, 'x', 'y'
         "label x annotation x field for watching causes; plus extended sweeps (null values, callbacks is-None/truthy/not-None, "
         "the private token, empty strings), the complete product value x old x new x field_needs_change over criteria "
         "including the falsy-but-meaningful literals '', 0, False, [], {} against old x new over the same falsy-but-present "
-        "values (and '' label/annotation values and criteria, labels={}), in both tiers; cross-class pairs, random larger label maps, registries with duplicate "
-        "registrations through kopf.on.*, and whole process_resource_event cycles; a case is distinct by "
-        "(criterion kinds, documented per-part verdicts, real match/prematch) and non-trivial when the handler has at "
-        "least one criterion")
-TRUSTED = ["pyextract atom vocabularies for registries.match/prematch/_matches_*/registry loops and the finalizer decision "
-           "of processing.process_resource_causes",
-           "the harness's reading of a cause (labels, annotations, old/new/body) and of a handler declaration into the model's "
-           "records; Selector.check, webhook sub-resources and cause.kwargs are passed in as booleans, not modelled",
-           "callbacks are pure boolean functions of the value (kwargs-dependent callbacks are `when=` booleans)"]
+        "values (and '' label/annotation values and criteria, labels={}), in both tiers; cross-class pairs, "
+        "random larger label maps, registries with duplicate registrations through kopf.on.*, every selector notation of "
+        "docs/resources.rst x a pool of 10 resources (preferred/non-preferred versions, core and events.k8s.io events, "
+        "missing kind/singular), and whole process_resource_event cycles (with and without a carried remaining_patch); a "
+        "case is distinct by (criterion kinds, documented per-part verdicts, real match/prematch) and non-trivial when the "
+        "handler has at least one criterion")
+TRUSTED = ["pyextract atom vocabularies for registries.match/prematch/_matches_*/registry loops, references.Selector.check and the "
+           "finalizer decision / carried-patch exit of processing.process_resource_causes",
+           "the harness's reading of a cause (labels, annotations, old/new/body), of a handler declaration and of a parsed "
+           "Selector's fields into the model's records; webhook sub-resources are passed in as a boolean (C18's subject)",
+           "`when=` and the kwargs of value callbacks are opaque: `when` is a boolean per (handler, cause), callbacks are pure "
+           "boolean functions of the value; callbacks that raise or depend on kwargs are outside the model",
+           "C02's theorem invoked_selected_awake (Kopf.Props.C02) is used as stated there by Kopf.Props.C15_Invoked"]
 ASSUMPTIONS = ["values are JSON (strings, integers, booleans, null, lists, objects; no floats). Python's bool/int coercion under == "
                "(True == 1, False == 0) is modelled explicitly on the Lean side (J.pyEq) and compared with the real code by the "
                "tie, but it is kept out of the judged set: the oracle leaves a case undefined when its documented verdict "
@@ -71,8 +89,17 @@ ASSUMPTIONS = ["values are JSON (strings, integers, booleans, null, lists, objec
                "a criterion is 'given' iff it `is not None` (model: VCrit.unset only for None; oracle: `is None` tests): "
                "'', 0, False, [], {} are ordinary literals",
                "the reason/initial/deleted gate of ChangingRegistry.iter_handlers is C05's model (Kopf.C05.gate), reused here",
-               "stealth is proved for a cycle whose consistency is pre-proven and whose patch starts empty "
-               "(memory.remaining_patch is C08's subject)"]
+               "'selected' vs 'invoked': C15 proves selection = criteria and invoked => selected & criteria hold; that a selected "
+               "handler is actually invoked (awake, not finished, its turn under the lifecycle) is C02's/C03's; the cycle tie "
+               "observes the invoked handlers of fresh objects under all_at_once, where invoked = selected",
+               "stealth is proved over the model's Effect enumeration of process_resource_causes with consistency pre-proven "
+               "(consistency_time is None); memory.remaining_patch is an explicit input (Obj.carried; since /repo 1c8f3dd only "
+               "handlers' transformation fns are carried, the framework's finalizer edits are not) -- how it gets there is "
+               "C08's subject; application.apply's sleep-and-touch (needs a matched handler's delay) and progress records left "
+               "on an object that stopped matching while a cycle was open (C03) are not in the model",
+               "Selector.__post_init__ (positional notation -> fields) is not modelled: the oracle reads the notation, the model "
+               "reads the parsed fields, the tie compares both with the real check(); 'name.version.group' notations and the "
+               "ambiguity resolution of Selector.select are not generated"]
 
 FINDING_OLD = {"site": "registries._matches_field_values", "deviation": "old_counts",
                "shape": "non-update changing handler: value= satisfied by the old state only (e.g. on.create value=ABSENT always holds)"}
@@ -198,6 +225,28 @@ RELEASE_VOCAB = _vocab({
     "finalizers.is_deletion_blocked(body=body, finalizer=finalizer)": "a.blocked",
     "list(spawning_delays) + list(changing_delays)": "a.delays",
 })
+def _opt_vocab(field: str, test: str) -> dict[str, str]:
+    return _vocab({f"self.{field} is None": "a.isNone", test: "a.holds"})
+
+
+_EV = {"EVENTS.check(resource)": "a.events", "EVENTS_K8S.check(resource)": "a.eventsK8s"}
+SELECTOR_PARTS = [
+    ("selGroupCore", "OptAtoms", _opt_vocab("group", "self.group == resource.group")),
+    ("selVersionCore", "VersionAtoms", _vocab({
+        "self.version is None": "a.versionNone", "self.version is not None": "(!a.versionNone)",
+        "resource.preferred": "a.preferred", "self.fn is not None": "(!a.fnNone)",
+        "self.version == resource.version": "a.versionEq"})),
+    ("selKindCore", "OptAtoms", _opt_vocab("kind", "self.kind == resource.kind")),
+    ("selPluralCore", "OptAtoms", _opt_vocab("plural", "self.plural == resource.plural")),
+    ("selSingularCore", "OptAtoms", _opt_vocab("singular", "self.singular == resource.singular")),
+    ("selCategoryCore", "OptAtoms", _opt_vocab("category", "self.category in resource.categories")),
+    ("selShortcutCore", "OptAtoms", _opt_vocab("shortcut", "self.shortcut in resource.shortcuts")),
+    ("selAnyCore", "AnyAtoms", _vocab({
+        "self.any_name is None": "a.anyNone", "self.any_name == resource.kind": "a.eqKind",
+        "self.any_name == resource.plural": "a.eqPlural", "self.any_name == resource.singular": "a.eqSingular",
+        "self.any_name in resource.shortcuts": "a.inShortcuts", "self.any_name is Marker.EVERYTHING": "a.isEverything", **_EV})),
+    ("selFnCore", "FnAtoms", _vocab({"self.fn is None": "a.fnNone", "self.fn(resource)": "a.result", **_EV})),
+]
 SRC = {"cause.new": "Src.new", "cause.old": "Src.old", "cause.body": "Src.body"}
 
 
@@ -311,7 +360,7 @@ def _appends(st: ast.If, fn_name: str) -> bool:
 def extract(ctx: Ctx) -> None:
     rtree = pyextract.parse_file(ctx.repo / "kopf/_core/intents/registries.py")
     out: list[str] = [pyextract.HEADER.format(src="kopf/_core/intents/registries.py, kopf/_core/reactor/processing.py"),
-                      "import Kopf.Model.C15_Match\nnamespace Kopf.C15.Extracted\nopen Kopf.C15\n"]
+                      "import Kopf.Model.C15_Match\nimport Kopf.Model.C15_Selector\nnamespace Kopf.C15.Extracted\nopen Kopf.C15\n"]
 
     def emit(name: str, atoms: str, body: str, ret: str = "Bool") -> None:
         out.append(f"def {name} (a : {atoms}) : {ret} :=\n  {body}\n")
@@ -480,6 +529,17 @@ def extract(ctx: Ctx) -> None:
     if n_app != 3:
         raise ExtractError(f"process_resource_causes: {n_app} patch.fns.append sites (expected 3)")
 
+    # references.Selector.check: a conjunction of nine parts, each over its own atoms
+    ftree = pyextract.parse_file(ctx.repo / "kopf/_cogs/structs/references.py")
+    chk = _single_return(pyextract.find_def(ftree, "Selector.check"))
+    if not isinstance(chk, ast.BoolOp) or not isinstance(chk.op, ast.And) or len(chk.values) != len(SELECTOR_PARTS):
+        raise ExtractError("Selector.check is no longer a conjunction of nine parts")
+    for (lname, atoms, vocab), part in zip(SELECTOR_PARTS, chk.values):
+        emit(lname, atoms, pyextract.BoolTranslator(vocab).tr(part))
+    emit("selCheckCore", "CheckAtoms", "(a.group && a.version && a.kind && a.plural && a.singular && a.category && a.shortcut && a.anyName && a.fn)")
+    for cname, want in (("EVENTS", "Selector('v1', 'events')"), ("EVENTS_K8S", "Selector('events.k8s.io', 'events')")):
+        if pyextract.norm(pyextract.module_constant(ftree, cname)) != want:
+            raise ExtractError(f"references.{cname} is no longer {want}")
     out.append("end Kopf.C15.Extracted\n")
     leanio.write_generated("Kopf/Extracted/C15.lean", "\n".join(out))
 
@@ -1366,6 +1426,145 @@ def run_dedup_case(env: Env, rec: Rec, keys: list[list], driver_reqs: list, pend
 
 
 # =============================================================================================
+# (D) the resource selector: references.Selector(<notation>).check(resource)
+# =============================================================================================
+FINDING_EVK8S = {"site": "references.Selector.check", "deviation": "events_k8s",
+                 "shape": "EVERYTHING / callable selectors also skip events.k8s.io events (only core v1 events are documented)"}
+SEL_RESOURCES = [
+    dict(group="kopf.dev", version="v1", plural="kopfexamples", kind="KopfExample", singular="kopfexample", shortcuts=["kex"], categories=["all", "kopf"], preferred=True),
+    dict(group="kopf.dev", version="v1beta1", plural="kopfexamples", kind="KopfExample", singular="kopfexample", shortcuts=["kex"], categories=["all", "kopf"], preferred=False),
+    dict(group="zalando.org", version="v1", plural="kopfexamples", kind="KopfExample", singular="kopfexample", shortcuts=[], categories=[], preferred=True),
+    dict(group="", version="v1", plural="pods", kind="Pod", singular="", shortcuts=["po"], categories=["all"], preferred=True),
+    dict(group="apps", version="v1", plural="deployments", kind="Deployment", singular="", shortcuts=["deploy"], categories=["all"], preferred=True),
+    dict(group="", version="v1", plural="events", kind="Event", singular="", shortcuts=["ev"], categories=[], preferred=True),
+    dict(group="events.k8s.io", version="v1", plural="events", kind="Event", singular="", shortcuts=["ev"], categories=[], preferred=True),
+    dict(group="events.k8s.io", version="v1beta1", plural="events", kind="Event", singular="", shortcuts=["ev"], categories=[], preferred=False),
+    dict(group="metrics.k8s.io", version="v1beta1", plural="pods", kind="PodMetrics", singular="", shortcuts=[], categories=[], preferred=True),
+    dict(group="example.com", version="v2", plural="things", kind=None, singular=None, shortcuts=[], categories=["kopf"], preferred=True),
+]
+SEL_CALLABLES: dict[str, Callable[[Any], bool]] = {
+    "true": lambda r: True, "false": lambda r: False,
+    "kex_preferred": lambda r: r.plural == "kopfexamples" and r.preferred,
+    "core": lambda r: r.group == "",
+}
+EVERYTHING = "*EVERYTHING*"
+
+
+def selector_notations() -> list[dict]:
+    """the notations docs/resources.rst describes; positional entries: strings, EVERYTHING, {"fn": name}"""
+    out: list[dict] = []
+    for name in ("kopfexamples", "kopfexample", "KopfExample", "kex", "pods", "pod", "Pod", "events", "deployments", "things", "nothing"):
+        out.append({"args": [name], "kw": {}})
+    out += [{"args": a, "kw": {}} for a in (
+        ["kopf.dev", "v1", "kopfexamples"], ["kopf.dev/v1", "kopfexamples"], ["kopf.dev", "v1beta1", "kex"], ["kopf.dev/v2", "kopfexamples"],
+        ["apps", "v1", "deployments"], ["apps/v1", "deployments"], ["", "v1", "pods"], ["v1", "pods"], ["v1", "events"], ["v1", "kopfexamples"],
+        ["kopf.dev", "kopfexamples"], ["apps", "deployments"], ["zalando.org", "kopfexamples"], ["events.k8s.io", "events"], ["metrics.k8s.io", "pods"],
+        ["kopfexamples.kopf.dev"], ["deployments.apps"], ["pods.metrics.k8s.io"], ["kopfexamples.zalando.org"],
+        ["kopf.dev", "v1", EVERYTHING], ["kopf.dev/v1", EVERYTHING], ["kopf.dev", EVERYTHING], ["v1", EVERYTHING], ["events.k8s.io", EVERYTHING],
+        ["events.k8s.io/v1beta1", EVERYTHING], [EVERYTHING])]
+    out += [{"args": [], "kw": kw} for kw in (
+        {"kind": "KopfExample"}, {"plural": "kopfexamples"}, {"singular": "kopfexample"}, {"shortcut": "kex"}, {"kind": "Pod"}, {"plural": "events"},
+        {"group": "kopf.dev", "plural": "kopfexamples"}, {"group": "kopf.dev", "version": "v1", "plural": "kopfexamples"},
+        {"group": "kopf.dev", "version": "v1beta1", "kind": "KopfExample"}, {"group": "zalando.org", "shortcut": "kex"},
+        {"category": "all"}, {"category": "kopf"}, {"category": "nothing"}, {"group": "kopf.dev", "category": "all"}, {"version": "v1", "category": "all"})]
+    for fn in SEL_CALLABLES:
+        out.append({"args": [{"fn": fn}], "kw": {}})
+        out.append({"args": [{"fn": fn}], "kw": {"group": "kopf.dev"}})
+    out.append({"args": [{"fn": "true"}], "kw": {"version": "v1"}})
+    out.append({"args": [{"fn": "true"}], "kw": {"group": "events.k8s.io"}})
+    return out
+
+
+def _named_as(r: dict, n: str) -> bool:
+    """'it can be any name: plural, singular, kind, or a short name'"""
+    return n == r["plural"] or n == r["singular"] or n == r["kind"] or n in r["shortcuts"]
+
+
+def doc_selector(decl: dict, r: dict, dev: frozenset = frozenset()) -> bool:
+    """docs/resources.rst, read from the *notation* (independently of Selector.__post_init__)"""
+    args, kw = decl["args"], decl["kw"]
+    group, version = kw.get("group"), kw.get("version")
+    name: Any = None
+    fn = None
+    if args and isinstance(args[0], dict):                       # "a single positional callback"
+        fn = SEL_CALLABLES[args[0]["fn"]]
+    elif args:
+        name = args[-1]                                          # "the rightmost positional value"
+        rest = args[:-1]
+        if len(rest) == 2:
+            group, version = rest
+        elif len(rest) == 1 and "/" in rest[0]:
+            group, version = rest[0].rsplit("/", 1)
+        elif len(rest) == 1 and rest[0] == "v1":                 # "equivalent to an empty API group name"
+            group, version = "", "v1"
+        elif len(rest) == 1:
+            group = rest[0]                                      # "treated as an API group"
+        elif name != EVERYTHING and "." in name:                 # kubectl's semantics: name.group
+            name, group = name.split(".", 1)
+    if group is not None and r["group"] != group:
+        return False
+    if version is not None and r["version"] != version:
+        return False
+    if version is None and fn is None and not r["preferred"]:    # "the preferred API version … is used"; not for callables
+        return False
+    if "kind" in kw and r["kind"] != kw["kind"] or "plural" in kw and r["plural"] != kw["plural"] \
+            or "singular" in kw and r["singular"] != kw["singular"] or "shortcut" in kw and kw["shortcut"] not in r["shortcuts"] \
+            or "category" in kw and kw["category"] not in r["categories"]:
+        return False
+    core_events = r["group"] == "" and r["version"] == "v1" and _named_as(r, "events")
+    excluded = core_events or ("events_k8s" in dev and r["group"] == "events.k8s.io" and r["preferred"] and _named_as(r, "events"))
+    if name == EVERYTHING:
+        return not excluded                                      # "Core v1 events are excluded from EVERYTHING"
+    if name is not None:
+        return _named_as(r, name)
+    if fn is not None:                                           # "and from callable selectors regardless of what the function returns"
+        class _R:
+            pass
+        rr = _R()
+        rr.__dict__.update(r)
+        return bool(fn(rr)) and not excluded
+    return True
+
+
+def run_selectors(env: Env, rec: Rec, reqs: list, pending: list) -> None:
+    R = env.references
+    real_res = [R.Resource(group=r["group"], version=r["version"], plural=r["plural"], kind=r["kind"], singular=r["singular"],
+                           shortcuts=frozenset(r["shortcuts"]), categories=frozenset(r["categories"]), preferred=r["preferred"])
+                for r in SEL_RESOURCES]
+    decls = selector_notations()
+    fixed = [("references.EVENTS", R.EVENTS), ("references.EVENTS_K8S", R.EVENTS_K8S)]
+    for decl in decls + [{"obj": name} for name, _ in fixed]:
+        if "obj" in decl:
+            sel = dict(fixed)[decl["obj"]]
+        else:
+            args = [R.EVERYTHING if a == EVERYTHING else (SEL_CALLABLES[a["fn"]] if isinstance(a, dict) else a) for a in decl["args"]]
+            sel = R.Selector(*args, **decl["kw"])
+        an = sel.any_name
+        fields = {k: getattr(sel, k) for k in ("group", "version", "kind", "plural", "singular", "shortcut", "category")}
+        fields["any"] = None if an is None else ("*" if an is R.EVERYTHING else {"n": an})
+        row = ""
+        for r, rr in zip(SEL_RESOURCES, real_res):
+            got = bool(sel.check(rr))
+            row += "1" if got else "0"
+            rec.evaluations += 1
+            rec.count("selector.check", got)
+            rec.nontrivial.add(f"sel|{leanio.canon(decl)}|{r['group']}/{r['version']}/{r['plural']}|{int(got)}")
+            if "obj" not in decl:
+                want = doc_selector(decl, r)
+                if got != want:
+                    sig = FINDING_EVK8S if doc_selector(decl, r, frozenset({"events_k8s"})) == got else \
+                        {"site": "references.Selector.check", "shape": "selects a resource the documented notation does not" if got else "does not select a resource the documented notation selects"}
+                    rec.oracle_fail(f"Selector{tuple(decl['args'])}{decl['kw']}.check({r['group']}/{r['version']}/{r['plural']}) = {got}, documented: {want}",
+                                    {"kind": "selector", "decl": decl, "resource": r, "impl": got}, sig)
+            if sel.fn is not None:     # the model's callable is its value on this resource
+                reqs.append(["C15.selcheck", [dict(fields, fn=bool(sel.fn(rr)))], [r]])
+                pending.append(("Selector.check", "1" if got else "0", {"kind": "selector", "decl": decl, "resource": r}))
+        if sel.fn is None:
+            reqs.append(["C15.selcheck", [dict(fields, fn=None)], SEL_RESOURCES])
+            pending.append(("Selector.check (row over the resources)", row, {"kind": "selector", "decl": decl, "resources": "SEL_RESOURCES"}))
+
+
+# =============================================================================================
 # (D) whole cycles: real process_resource_event, writes observed; the stealth clause
 # =============================================================================================
 def carried_user_fn(body: Any) -> None:
@@ -1582,6 +1781,8 @@ def flush(rec: Rec, driver: leanio.Driver, reqs: list, pending: list) -> None:
             compare_grid(rec, what[5:], impl, out)
             continue
         model = model_effects(out) if what == "cycle effects" else (out[1] if out and out[0] == "ok" else out)
+        if what.startswith("Selector.check") and isinstance(model, list) and len(model) == 1:
+            model = model[0]
         rec.compare(what, impl, model, replay)
     rec.traces += len(reqs)
     reqs.clear()
@@ -1667,6 +1868,8 @@ def run_case(env: Env, rec: Rec, data: dict, reqs: list, pending: list, drv: lea
         run_select_case(env, rec, c, reqs, pending)
     elif kind == "dedup":
         run_dedup_case(env, rec, data["keys"], reqs, pending)
+    elif kind == "selector":
+        run_selectors(env, rec, reqs, pending)
     elif kind == "cycle":
         c = data["case"]
         c = dict(c, handlers=[tuple(x) for x in c["handlers"]])
@@ -1721,6 +1924,7 @@ def run(ctx: Ctx) -> None:
     for _ in range(ctx.budget(300, 3000)):
         keys = [[rng.randrange(3), rng.choice(["a", "b", "c"])] for _ in range(rng.randint(0, 8))]
         run_dedup_case(env, rec, keys, reqs, pending)
+    run_selectors(env, rec, reqs, pending)
     flush(rec, drv, reqs, pending)
 
     async def cycles() -> None:
